@@ -28,6 +28,12 @@ func init() {
 				fs = checkMatch(parts[1:len(parts)-1], parts[len(parts)-1], parts[1] == "=")
 			case "search":
 				fs = checkSearch(parts[1:len(parts)-1], parts[len(parts)-1], parts[1] == "=")
+			case "match-rm", "search-rm":
+				st, empty := parts[1:len(parts)-1], false
+				if st[0] == "=" {
+					st, empty = st[1:], true
+				}
+				fs = checkAfterRemove(strings.TrimSuffix(parts[0], "-rm"), st, parts[len(parts)-1], empty)
 			}
 			for _, f := range fs {
 				x.Failf(f.Clause, f.Sig, "%s", f.Msg)
@@ -148,6 +154,33 @@ func checkSearch(nl []string, filter string, same bool) []explore.ClauseFail {
 	return compare("Search", filter, nl, t.Search(filter), t.SearchFirst(filter), want)
 }
 
+// checkAfterRemove: the set {first entry} reached another way - both entries added, the second one removed again (by
+// Remove or by Empty): the answers must be those of the tree holding the first entry only (no trace of the other).
+func checkAfterRemove(kind string, st []string, q string, empty bool) []explore.ClauseFail {
+	t := topic.NewStandardTree()
+	t.Add(st[0], 1)
+	if st[1] != st[0] {
+		t.Add(st[1], 2)
+		if empty {
+			t.Empty(st[1])
+		} else {
+			t.Remove(st[1], 2)
+		}
+	}
+	want := map[int]bool{}
+	desc := []string{st[0], "(+ " + st[1] + ", removed again)"}
+	if kind == "match" {
+		if ref.Matches(st[0], q) {
+			want[1] = true
+		}
+		return compare("Match", q, desc, t.Match(q), t.MatchFirst(q), want)
+	}
+	if ref.Matches(q, st[0]) {
+		want[1] = true
+	}
+	return compare("Search", q, desc, t.Search(q), t.SearchFirst(q), want)
+}
+
 type job struct {
 	kind   string
 	stored []string
@@ -174,10 +207,19 @@ func work(j job) (res result) {
 			res.fs = append(res.fs, explore.ClauseFail{Clause: "no-panic", Sig: fmt.Sprintf("panic:%s:%v", j.kind, r), Msg: fmt.Sprintf("%s on a tree holding %q queried with %q panicked: %v", j.kind, j.stored, j.q, r)})
 		}
 	}()
-	if j.kind == "match" {
+	switch j.kind {
+	case "match":
 		res.fs = checkMatch(j.stored, j.q, j.same)
-	} else {
+	case "search":
 		res.fs = checkSearch(j.stored, j.q, j.same)
+	case "match-rm":
+		res.fs = checkAfterRemove("match", j.stored, j.q, j.same)
+		res.matched = ref.Matches(j.stored[0], j.q)
+		return res
+	case "search-rm":
+		res.fs = checkAfterRemove("search", j.stored, j.q, j.same)
+		res.matched = ref.Matches(j.q, j.stored[0])
+		return res
 	}
 	for _, st := range j.stored {
 		if (j.kind == "match" && ref.Matches(st, j.q)) || (j.kind == "search" && ref.Matches(j.q, st)) {
@@ -246,13 +288,16 @@ func run(r *report.Report) {
 		NQ, FQ = N3, F3
 	}
 	part("two-filters", fmt.Sprintf("all ordered pairs of %d filters (depth <= 3), distinct and equal values, x %d names", len(FA), len(NQ)),
-		"trees holding two filters, with two distinct values and with the same value under both (each value once)",
+		"trees holding two filters, with two distinct values and with the same value under both (each value once); and the one-filter tree reached by adding the second filter and taking it out again (Remove / Empty): same answers as the tree that never held it",
 		func(emit func(job)) {
 			for _, f1 := range FA {
 				for _, f2 := range FA {
 					for _, n := range NQ {
 						emit(job{kind: "match", stored: []string{f1, f2}, q: n})
 						emit(job{kind: "match", stored: []string{f1, f2}, q: n, same: true})
+						// the one-filter set reached through a two-filter tree (second filter removed / emptied again)
+						emit(job{kind: "match-rm", stored: []string{f1, f2}, q: n})
+						emit(job{kind: "match-rm", stored: []string{f1, f2}, q: n, same: true})
 					}
 				}
 			}
@@ -265,6 +310,8 @@ func run(r *report.Report) {
 					for _, f := range FQ {
 						emit(job{kind: "search", stored: []string{n1, n2}, q: f})
 						emit(job{kind: "search", stored: []string{n1, n2}, q: f, same: true})
+						emit(job{kind: "search-rm", stored: []string{n1, n2}, q: f})
+						emit(job{kind: "search-rm", stored: []string{n1, n2}, q: f, same: true})
 					}
 				}
 			}
